@@ -26,10 +26,102 @@ def _extreme(e):
     return None
 
 
+def _mod_diff(e, a, b_):
+    """`e` is (a - b_) reduced modulo 2**w (any width expression)"""
+    if isinstance(e, ast.BinOp) and isinstance(e.op, (ast.Mod, ast.BitAnd)) and isinstance(e.left, ast.BinOp) and isinstance(e.left.op, ast.Sub):
+        return ast.unparse(e.left.left) == a and ast.unparse(e.left.right) == b_
+    if isinstance(e, ast.Call) and (dotted(e.func) or "").split(".")[-1] == "_modular_sub" and len(e.args) >= 2:
+        return ast.unparse(e.args[0]) == a and ast.unparse(e.args[1]) == b_
+    return False
+
+
+def _containment_ok(tree, name):
+    """the helper `name(self, x)` answers True only where x is inside self: the arc test
+    (x.lb - self.lb) + (x.ub - x.lb) <= (self.ub - self.lb), all modulo 2**w, and the lattice test (offset and x's stride
+    divisible by self's stride, or x a single value).  Returns a list of what is missing."""
+    import re
+
+    from .. import guards, util
+    from ..core import walk_no_nested
+
+    fn = util.resolve_locals(tree.func_inlined(SI, f"StridedInterval.{name}"))
+    ps = positional_params(fn)
+    if len(ps) != 2:
+        return [f"{name} does not take (self, x)"]
+    me, x = ps
+    missing = []
+    n = 0
+    for r in walk_no_nested(fn):
+        if not (isinstance(r, ast.Return) and r.value is not None):
+            continue
+        if isinstance(r.value, ast.Constant) and r.value.value is False:
+            continue
+        facts = guards.guards_of(r)
+        texts = [re.sub(r"\s+", " ", f) for f in guards.holds(r)]
+        if f"{x}.is_empty" in texts:
+            continue
+        n += 1
+        arc = False
+        for t, pol in facts:
+            if isinstance(t, ast.Compare) and len(t.ops) == 1 and isinstance(t.left, ast.BinOp) and isinstance(t.left.op, ast.Add):
+                gt = isinstance(t.ops[0], ast.Gt) and not pol
+                le = isinstance(t.ops[0], ast.LtE) and pol
+                if not (gt or le):
+                    continue
+                parts = (t.left.left, t.left.right)
+                span = t.comparators[0]
+                has_off = any(_mod_diff(p_, f"{x}.lower_bound", f"{me}.lower_bound") for p_ in parts)
+                has_xs = any(_mod_diff(p_, f"{x}.upper_bound", f"{x}.lower_bound") for p_ in parts)
+                if has_off and has_xs and _mod_diff(span, f"{me}.upper_bound", f"{me}.lower_bound"):
+                    arc = True
+        if not arc:
+            missing.append(f"the answer `{norm(r.value)[:50]}` is not under the arc test offset + span(x) <= span(self)")
+        v = ast.unparse(r.value) + " ; " + " ; ".join(texts)
+        lattice = (f"% {me}.stride == 0" in v and f"{x}.stride % {me}.stride == 0" in v) or (f"{me}.stride == 0" in " ".join(texts))
+        if not lattice:
+            missing.append(f"the answer `{norm(r.value)[:50]}` does not test the offset and {x}.stride for divisibility by {me}.stride")
+    if n == 0:
+        missing.append(f"{name} has no answer to examine")
+    return missing
+
+
+def _containment_net(fn, s, b):
+    """(helper name, statement) when every value `widen` returns has passed `R.helper(s) and R.helper(b)` or is TOP:
+    the last statements are `if not (R.h(s) and R.h(b)): R = <top>` and `return R`"""
+    body = [st for st in fn.body if not (isinstance(st, ast.Expr) and isinstance(st.value, ast.Constant))]
+    if len(body) < 2 or not (isinstance(body[-1], ast.Return) and isinstance(body[-1].value, ast.Name)):
+        return None
+    rname = body[-1].value.id
+    if any(isinstance(x, ast.Return) for st in body[:-1] for x in ast.walk(st)):
+        return None
+    guard = body[-2]
+    if not (isinstance(guard, ast.If) and not guard.orelse and len(guard.body) == 1 and isinstance(guard.body[0], ast.Assign)):
+        return None
+    asg = guard.body[0]
+    if not (len(asg.targets) == 1 and isinstance(asg.targets[0], ast.Name) and asg.targets[0].id == rname and isinstance(asg.value, ast.Call) and (dotted(asg.value.func) or "").split(".")[-1] == "top"):
+        return None
+    t = guard.test
+    # `not (A and B)` or `not A or not B`
+    if isinstance(t, ast.UnaryOp) and isinstance(t.op, ast.Not) and isinstance(t.operand, ast.BoolOp) and isinstance(t.operand.op, ast.And):
+        conj = list(t.operand.values)
+    elif isinstance(t, ast.BoolOp) and isinstance(t.op, ast.Or) and all(isinstance(v, ast.UnaryOp) and isinstance(v.op, ast.Not) for v in t.values):
+        conj = [v.operand for v in t.values]
+    else:
+        return None
+    helpers, covered = set(), set()
+    for c in conj:
+        if isinstance(c, ast.Call) and isinstance(c.func, ast.Attribute) and isinstance(c.func.value, ast.Name) and c.func.value.id == rname and len(c.args) == 1 and isinstance(c.args[0], ast.Name):
+            helpers.add(c.func.attr)
+            covered.add(c.args[0].id)
+    if len(helpers) == 1 and {s, b} <= covered:
+        return next(iter(helpers)), guard
+    return None
+
+
 @rule(
     "C22.widen",
     props=("C22",),
-    floor=6,
+    floor=1,
     family="FIN",
     desc="stride clause of widening, for all inputs: on every path of StridedInterval.widen the constructed result's "
     "stride provably divides the stride of each operand that may hold several values and the offset of each operand's "
@@ -39,6 +131,27 @@ def _extreme(e):
 def c22_widen(R):
     tree = R.tree
     m = tree.mod(SI)
+    from .. import util
+
+    raw = util.resolve_locals(tree.func(SI, "StridedInterval.widen"))
+    rps = positional_params(raw)
+    R.need(len(rps) == 2, "StridedInterval.widen no longer takes two operands")
+    net = _containment_net(raw, rps[0], rps[1])
+    if net is not None:
+        # whatever the extrapolation builds, it is returned only after it has been found to contain both operands
+        # (the full interval otherwise): the per-path obligations below are discharged by the test itself, provided
+        # the test is a containment test
+        helper, guard = net
+        missing = _containment_ok(tree, helper)
+        R.check(
+            not missing,
+            m,
+            guard,
+            f"every result of widen has passed {helper}(operand) for both operands or is TOP, and {helper} is a containment test",
+            f"widen relies on `{helper}` to keep only results that contain both operands, but {'; '.join(missing)}",
+            construct=f"widen: containment net through {helper}",
+        )
+        return
     fn = tree.func_inlined(SI, "StridedInterval.widen", exclude=("_modular_sub", "_modular_add", "_wrapped_cardinality", "lower", "upper"))
     ps = positional_params(fn)
     R.need(len(ps) == 2, "StridedInterval.widen no longer takes two operands")
